@@ -87,7 +87,25 @@ def compare_class(ctx, cls, rule="C05.R2", need_sizeof=True):
             n += 1
             ctx.ob(rule, f, ok, "%s._%s moves the stream by %s but _sizeof answers %s" % (cls, side, N.show(c), " / ".join(N.show(w) for w in want) or "nothing"),
                    key="%s %s amount %s" % (cls, side, N.show(c))[:200])
+    # converse: every answer _sizeof can give is the amount of some parse path and some build path under compatible configuration
+    if sz and cls not in REVERSE_EXEMPT:
+        for side, f, rows in (("parse", fp, pr), ("build", fb, br)):
+            amounts = []
+            for g, a, p in rows:
+                if a in MARKERS or is_top(a):
+                    continue
+                for c in (substitute_parsed(a, br, g) if side == "parse" else [a]) or [a]:
+                    amounts.append((g, c))
+            if not amounts:
+                continue
+            for gs, sval, ps in sz:
+                hit = any(c == sval and compatible(g, gs) for g, c in amounts)
+                n += 1
+                ctx.ob(rule, fs, hit, "%s._sizeof can answer %s, but no %s path moves the stream by that amount" % (cls, N.show(sval), side), key="%s sizeof answer %s has a %s path" % (cls, N.show(sval)[:80], side))
     return n
+
+
+REVERSE_EXEMPT = {}
 
 
 def run(ctx):
